@@ -288,6 +288,27 @@ t("C18", "showcursor-short-cut", "simulation.go", "\ts.Lock()\n\ts.cursorx, s.cu
 t("C20", "watcher-copy-kept", "views/widget.go", "\tww.Unlock()\n\tfor watcher := range watcherCopy {", "\tww.watchers = watcherCopy\n\tww.Unlock()\n\tfor watcher := range watcherCopy {", "no-delivery-state-kept")
 t("C20", "negative-extent-for-the-last-child", BL, "\t\tc.view.Resize(x, y, cw, h)\n", "\t\tif c == b.cells[len(b.cells)-1] {\n\t\t\tcw = -1\n\t\t}\n\t\tc.view.Resize(x, y, cw, h)\n", "child-extents-computed")
 
+# ---------------------------------------------------------------- round 13
+TI = "terminfo/terminfo.go"
+t("C01", "palette-sized-from-colors", TS, "\tnColors := t.nColors()\n\tif nColors > 256 {", "\tnColors := t.Colors()\n\tif nColors > 256 {", "palette-sized-by-the-description")
+t("C03", "escape-wait-from-first-pending-byte", TS, "\t\t\t\t\t}\n\t\t\t\t}\n\t\t\t\tt.keytimer.Reset(time.Millisecond * 50)\n\t\t\t}\n\t\tcase chunk := <-t.keychan:", "\t\t\t\t\t}\n\t\t\t\t}\n\t\t\t\tt.keytimer.Reset(time.Until(t.keyexpire) + time.Millisecond)\n\t\t\t}\n\t\tcase chunk := <-t.keychan:", "escape-timer-armed-for-the-full-wait")
+t("C04", "teardown-gives-up-on-drain-error", TS, "\tclose(stopQ)\n\t_ = t.tty.Drain()\n\tt.Unlock()\n", "\tclose(stopQ)\n\tif err := t.tty.Drain(); err != nil {\n\t\tt.Unlock()\n\t\treturn\n\t}\n\tt.Unlock()\n", "stops-the-tty-once-marked-not-running")
+t("C06", "teardown-gives-up-on-drain-error", TS, "\tclose(stopQ)\n\t_ = t.tty.Drain()\n\tt.Unlock()\n", "\tclose(stopQ)\n\tif err := t.tty.Drain(); err != nil {\n\t\tt.Unlock()\n\t\treturn\n\t}\n\tt.Unlock()\n", "stops-the-tty-once-marked-not-running")
+t("C05", "resize-makes-room-in-the-queue", TS, "\tselect {\n\tcase t.eventQ <- ev:\n\tdefault:\n\t}\n}\n\nfunc (t *tScreen) Colors() int {", "\tselect {\n\tcase t.eventQ <- ev:\n\tdefault:\n\t\tselect {\n\t\tcase <-t.eventQ:\n\t\tdefault:\n\t\t}\n\t\tselect {\n\t\tcase t.eventQ <- ev:\n\t\tdefault:\n\t\t}\n\t}\n}\n\nfunc (t *tScreen) Colors() int {", "received-by-the-consumer-side-only")
+t("C07", "bounded-stack", TI, "\treturn append(st, v)\n}", "\tif len(st) >= 16 {\n\t\treturn st\n\t}\n\treturn append(st, v)\n}", "every-return-appends")
+t("C08", "wide-dirtying-behind-the-lock", "cell.go", "\t\tif (c.width > 0) && (mainc != c.currMain", "\t\tif (c.width > 0) && !c.lock && (mainc != c.currMain", "covered-columns-dirtied-whatever-the-lock")
+t("C10", "post-stamps-the-event", "screen.go", "func (b *baseScreen) PostEvent(ev Event) error {\n\tselect {", "func (b *baseScreen) PostEvent(ev Event) error {\n\tif st, ok := ev.(interface{ SetEventNow() }); ok && ev.When().IsZero() {\n\t\tst.SetEventNow()\n\t}\n\tselect {", "event-only-sent")
+t("C10", "simulated-cell-bytes-reused", "simulation.go", "\tsimc.Bytes = nil\n\n\tif x > s.physw-width {", "\tsimc.Bytes = simc.Bytes[:0]\n\n\tif x > s.physw-width {", "cell-bytes-start-fresh")
+t("C11", "not-a-character-after-the-decoder", TS, "\t// Looks like potential escape\n\treturn true, false\n}", "\tfor _, c := range b[1:] {\n\t\tif c < 0x80 {\n\t\t\treturn false, false\n\t\t}\n\t}\n\t// Looks like potential escape\n\treturn true, false\n}", "not-mine-only-before-the-decoder")
+t("C12", "mouse-parsers-for-esc-only", TS, "\t\tif t.ti.Mouse != \"\" {\n\t\t\tif part, comp := t.parseXtermMouse(buf, &res); comp {", "\t\tif t.ti.Mouse != \"\" && b[0] == '\\x1b' {\n\t\t\tif part, comp := t.parseXtermMouse(buf, &res); comp {", "mouse-parsers-not-behind-a-first-byte-test")
+t("C14", "registered-names-skip-the-override", TI, "\tt := terminfos[name]\n\tdblock.Unlock()\n\n\t// If the name ends in -truecolor", "\tt := terminfos[name]\n\tdblock.Unlock()\n\tif t != nil && !t.TrueColor && !addtruecolor {\n\t\treturn t, nil\n\t}\n\n\t// If the name ends in -truecolor", "override-consulted-before-every-success")
+t("C16", "name-indexed-before-its-length", "color.go", "\tif len(name) == 7 && name[0] == '#' {", "\tif name[0] == '#' && len(name) == 7 {", "name-indexed-behind-its-length")
+t("C17", "control-byte-glyphs-dropped", TS, "\t\tif r, ok := vtACSNames[srcv]; ok {\n\t\t\tt.acs[r] = enter + dstv + exit", "\t\tif r, ok := vtACSNames[srcv]; ok && dstv[0] >= ' ' {\n\t\t\tt.acs[r] = enter + dstv + exit", "entry-for-every-pair-whatever-the-glyph")
+t("C18", "cursor-row-against-the-width", "simulation.go", "\tif x < 0 || y < 0 || x >= s.physw || y >= s.physh {\n\t\ts.cursorvis = false", "\tif x < 0 || y < 0 || x >= s.physw || y >= s.physw {\n\t\ts.cursorvis = false", "comparisons-within-one-axis")
+t("C19", "screen-style-for-default-colours", "wscreen.go", "\tif style == StyleDefault {\n\t\tstyle = t.style", "\tif style.fg == ColorDefault && style.bg == ColorDefault && style.attrs == AttrNone {\n\t\tstyle = t.style", "screen-style-only-for-a-wholly-default-cell")
+t("C19", "mouse-alt-and-ctrl-swapped", "wscreen.go", "\tif args[4].Bool() { // mod alt\n\t\tmod |= ModAlt\n\t}\n\n\tif args[5].Bool() { // mod ctrl\n\t\tmod |= ModCtrl\n\t}", "\tif args[4].Bool() {\n\t\tmod |= ModCtrl\n\t}\n\n\tif args[5].Bool() {\n\t\tmod |= ModAlt\n\t}", "modifier-positions-agree-with-the-page")
+t("C20", "origin-row-against-the-width", VW, "\tif y >= 0 && y < py {\n\t\tv.physy = y", "\tif y >= 0 && y < px {\n\t\tv.physy = y", "comparisons-within-one-axis")
+
 # drop the placeholder teeth that were only notes
 T[:] = [x for x in T if not x["Expect"].startswith("zzz-")]
 
